@@ -1,15 +1,96 @@
 package main
 
 import (
-	"bytes"
+	"encoding/json"
+	"flag"
 	"fmt"
-
-	"filippo.io/age/internal/bech32"
-	"filippo.io/age/plugin"
+	"os"
+	"path/filepath"
+	"strconv"
 )
 
+type checkFn func(c *Ctx)
+
+var checks = map[string]checkFn{}
+
 func main() {
-	s, _ := bech32.Encode("age", bytes.Repeat([]byte{7}, 32))
-	fmt.Println(s)
-	fmt.Println(plugin.EncodeIdentity("yubikey", nil))
+	if len(os.Args) < 3 || os.Args[1] != "check" {
+		fmt.Fprintln(os.Stderr, "usage: verifh check Cxx [--tier quick|thorough] [--seed N] [--coqinfo file] [--evidence file] [--model path]")
+		os.Exit(2)
+	}
+	prop := os.Args[2]
+	fs := flag.NewFlagSet("check", flag.ExitOnError)
+	tier := fs.String("tier", "quick", "")
+	seed := fs.Int64("seed", 1, "")
+	coq := fs.String("coqinfo", "", "")
+	evid := fs.String("evidence", "", "")
+	modelPath := fs.String("model", filepath.Join(verifDir(), "build", "agemodel"), "")
+	fs.Parse(os.Args[3:])
+	if s := os.Getenv("VERIF_SEED"); s != "" && !flagSet(fs, "seed") {
+		if v, err := strconv.ParseInt(s, 10, 64); err == nil {
+			*seed = v
+		}
+	}
+	fn := checks[prop]
+	if fn == nil {
+		fmt.Fprintln(os.Stderr, "no check registered for", prop)
+		os.Exit(2)
+	}
+	ci := &coqInfo{CheckerCmd: "coqc (see bin/check)"}
+	if *coq != "" {
+		b, err := os.ReadFile(*coq)
+		if err != nil {
+			fmt.Fprintln(os.Stderr, err)
+			os.Exit(2)
+		}
+		if err := json.Unmarshal(b, ci); err != nil {
+			fmt.Fprintln(os.Stderr, err)
+			os.Exit(2)
+		}
+	}
+	if *evid == "" {
+		*evid = filepath.Join(verifDir(), "evidence", prop+".json")
+	}
+	m, err := startModel(*modelPath)
+	if err != nil {
+		fmt.Fprintln(os.Stderr, "cannot start model:", err)
+		os.Exit(2)
+	}
+	defer m.Close()
+	c := newCtx(prop, *tier, *seed, m)
+	fn(c)
+	// a broken correspondence with no direct violation: search harder with the
+	// implementation-side oracles only before reporting
+	hasCorr, hasOracle := false, false
+	for _, f := range c.failures {
+		if f.Kind == "oracle" {
+			hasOracle = true
+		} else {
+			hasCorr = true
+		}
+	}
+	if hasCorr && !hasOracle && c.tier != "thorough" {
+		s := newCtx(prop, *tier, *seed+1000003, m)
+		s.searchOnly = true
+		fn(s)
+		for _, f := range s.failures {
+			if f.Kind == "oracle" {
+				c.failures = append([]failure{f}, c.failures...)
+			}
+		}
+		c.notes = append(c.notes, fmt.Sprintf("failing-input search after a correspondence break: %d more cases", s.evals))
+	}
+	code := c.finish(ci, *evid)
+	m.Close()
+	os.Exit(code)
+}
+
+func flagSet(fs *flag.FlagSet, name string) bool {
+	found := false
+	fs.Visit(func(f *flag.Flag) {
+		if f.Name == name {
+			found = true
+		}
+	})
+	return found
 }
